@@ -613,6 +613,10 @@ func poolsByNamespace(pools map[string]*Pool) map[string][]string {
 			poolsForNamespace[namespace] = append(poolsForNamespace[namespace], pool.Name)
 		}
 	}
+	// pools is a map: sort the names so that the same pools always yield the same value.
+	for namespace := range poolsForNamespace {
+		sort.Strings(poolsForNamespace[namespace])
+	}
 	return poolsForNamespace
 }
 
